@@ -1,5 +1,6 @@
 """C08 - the OPB and the CNF rendering of a family are the same formula (engine S)."""
 import io
+import os
 import contextlib
 import time
 
@@ -88,6 +89,10 @@ for pn in ([1, 1], [2, 0], [0, 3], [0, 0]):
     CLI_ARGV.append(['and'] + pn)
     CLI_ARGV.append(['or'] + pn)
 CLI_ARGV += [['true'], ['false']]
+# the one family that reads a file: both tools must read the same formula (f12 has tautological clauses and repeated literals)
+_DATA = os.path.join(os.path.dirname(os.path.dirname(os.path.abspath(__file__))), 'xh', 'data')
+for _i in range(13):
+    CLI_ARGV.append(['dimacs', os.path.join(_DATA, 'f%d.cnf' % _i)])
 # seeded random command lines: with the same --seed both tools must draw the same graph AND the same formula
 for sd in (0, 1, 7):
     for cmd in (['tseitin', 'random', 'gnd', 6, 3], ['tseitin', 'randomeven', 'gnp', 5, '.5'], ['tseitin', 'randomodd', 'gnm', 5, 6],
